@@ -273,3 +273,57 @@ def _moment_decorator(h, which):
 
 for _w in ('with_mean', 'with_variance', 'with_spread', 'normalized'):
     contract('C16/constraints.%s' % _w, ['C16', 'C18'], K + _w + '.decorate.factory', samples=150)(lambda h, w=_w: _moment_decorator(h, w))
+
+
+# ---------------------------------------------------------------------------- integers / rounded / precision
+INDEX_CASES = [None, (0,), (1, 2), (2, 0), (-1,)]
+
+
+def _selected(index, n):
+    if index is None:
+        return list(range(n))
+    return sorted({i % n for i in index})
+
+
+def _rounding(h, which):
+    """selected entries go to the nearest integer (integers) / the nearest multiple of 10**-digits (rounded: of the
+    input, precision: of the decorated function's output) -- distance at most half a unit, result a whole number of
+    units -- and entries not selected are handed on unchanged; list in -> list out.  Indices within range
+    (out-of-range members: finding F12); integers(ints=True) with an index is finding F11 (here: ints=False)."""
+    n = 3
+    index = h.choice('index', INDEX_CASES)
+    digits = 0 if which == 'integers' else h.choice('digits', [0, 1, 2])
+    x = h.vec('x', n)
+    x0 = h.snapshot(x)
+    idx = None if index is None else (h.clist(list(index)) if h.is_sym() else list(index))
+    if which == 'precision':
+        inner = h.fn('F', ret='same', log='calls')
+        func = h.call(h.call(h.get(K + 'precision'), digits, idx), inner)
+        y = h.call(func, x)
+        src = h.call(h.fn('F', ret='same'), x0)
+    else:
+        inner = h.fn('F', ret='real', log='calls')
+        if which == 'integers':
+            func = h.call(h.call(h.get(K + 'integers'), False, idx), inner)
+        else:
+            func = h.call(h.call(h.get(K + 'rounded'), digits, idx), inner)
+        h.call(func, x)
+        calls = h.log('calls')
+        h.check('decorated-function-called-once-with-a-vector-of-the-same-length', 'len(calls) == 1 and len(calls[0][0]) == n', calls=calls, n=n)
+        y = calls[0][0]
+        src = x0
+    unit = 10 ** digits
+    sel = _selected(index, n)
+    for i in range(n):
+        if i in sel:
+            h.check('selected-entries-rounded-to-the-nearest-unit',
+                    'abs(y[i] * u - s[i] * u) <= 0.5 and isint(y[i] * u)', y=y, s=src, i=i, u=unit)
+        else:
+            h.check('entries-not-selected-unchanged', 'y[i] == s[i]', y=y, s=src, i=i)
+    h.check('conforming-input-left-alone',
+            ' and '.join('implies(isint(s[%d] * u), y[%d] == s[%d])' % (i, i, i) for i in range(n)), y=y, s=src, u=unit)
+    h.check('input-vector-not-modified', 'seq_eq(x, x0)', x=x, x0=x0)
+
+
+for _w in ('integers', 'rounded', 'precision'):
+    contract('C16/constraints.%s' % _w, ['C16'], K + _w + '.dec.func', samples=150)(lambda h, w=_w: _rounding(h, w))
